@@ -42,7 +42,11 @@ var Props = map[string]PropRunner{
 	"C10": RunC10,
 	"C11": RunC11,
 	"C12": RunC12,
-	"C01": func(r *Run) { RunE0(r, e0Profile("C01", "C01")) },
+	"C01": func(r *Run) {
+		p := e0Profile("C01", "C01")
+		p.Weights[opPartial] = 4 // replicas also start from length-limited loads and catch up by merging
+		RunE0(r, p)
+	},
 	"C02": func(r *Run) {
 		p := e0Profile("C02", "C02")
 		p.Weights[opPartial] = 5
@@ -60,6 +64,8 @@ var Props = map[string]PropRunner{
 		p := e0Profile("C05", "C05")
 		p.CodecSwarm = true // immutability is claimed for entries of every codec configuration
 		p.Weights[opRefused] = 6
+		p.ClockJumps = true // views must stay stable whatever magnitudes the Lamport times reach
+		p.Weights[opClockJump] = 4
 		RunE0(r, p)
 	},
 	"C06": func(r *Run) {
